@@ -51,9 +51,12 @@ def tornCell (new : Cell String) (old : Option (Cell String)) (b : Nat) (hdrLen 
   let oldMd := match old with | some o => o.md | none => Meta.zeroed
   if b < 40 then
     { slot := new.slot, hdr := decodeHdr ((encodeHdr new.hdr).take b ++ (encodeHdr oldHdr).drop b), md := oldMd,
+      url := match old with | some o => o.url | none => none,
       data := match old with | some o => o.data | none => "z" }
   else
-    { slot := new.slot, hdr := new.hdr, md := if b ≥ 40 + hdrLen then new.md else if b = 40 then oldMd else .unparsable, data := "x" }
+    { slot := new.slot, hdr := new.hdr, md := if b ≥ 40 + hdrLen then new.md else if b = 40 then oldMd else .unparsable,
+      url := if b ≥ 40 + hdrLen then new.url else if b = 40 then (match old with | some o => o.url | none => none) else none,
+      data := "x" }
 
 /-! ### the simulator -/
 
@@ -173,7 +176,7 @@ def writePieces (ki ver : Nat) (f : Nat) (total : Nat) : Nat → Sim → Int →
     if !ok2 then s2 else
     let tag := s!"{keyName ki}v{ver}p{idx}"
     let c : Cell String :=
-      { slot := cur', data := tag,
+      { slot := cur', data := tag, url := if idx = 0 then some (keyOf (keyIndexOf ki)) else none,
         md := if idx = 0 then .ok (some (keyOf (keyIndexOf ki))) 0 1088 s.metaHdr else .unparsable,
         hdr := { key := keyOf (keyIndexOf ki), entrySize := if rest.isEmpty then total else 0, payloadSize := p, version := 1,
                  firstSlot := first', nextSlot := nxt } }
@@ -214,7 +217,7 @@ def probe (s : Sim) (ki : Nat) : String :=
       | some c0 =>
         match c0.md with
         | .ok (some mk) _ _ _ =>
-          if mk == keyOf (keyIndexOf ki) then
+          if mk == keyOf (keyIndexOf ki) && c0.url == some (keyOf (keyIndexOf ki)) then
             "H:" ++ "+".intercalate (chain.map (fun x => match s.disk.find? (fun c => c.slot == x) with | some c => c.data | none => s!"e{x}"))
           else "M"
         | _ => "M"
